@@ -313,7 +313,7 @@ class Campaign:
                   assumptions=TRUSTED_BASE, wall_s=self.timer.s(), violations=len(self.violations))
         common.write_evidence(prop, ev)
         for kid, n in sorted(self.known_hits.items()):
-            kf = next(f for f in self.findings if f["id"] == kid)
+            kf = next(f for f in self.findings if f["id"] == kid and f.get("property") == prop)
             print(f"KNOWN-FINDING: property={prop} {kf['what']} (hit {n}x)")
         if self.violations:
             for v in self.violations:
